@@ -131,6 +131,6 @@ Proof. vm_compute. reflexivity. Qed.
 Example ex_p3_fits : fits32 [100;101] /\ Forall p3_part_ok [POne 83; PStruct [108;101]; PBytes [1;2;3]].
 Proof. split; [unfold fits32; cbn; lia|repeat constructor; unfold fits32; cbn; lia]. Qed.
 Example ex_read_loop :
-  read_loop _ lp_accept lp_hint lp_finished [0;4999;1;0;7;0;0;0;0;0;0;0]%nat lp_init (encode_bulk_data [1;2;3])
+  read_loop _ lp_accept lp_hint lp_finished [1;0;2;1;8;1;1;1;1;1;1;1]%N lp_init (encode_bulk_data [1;2;3])
   = RlFinished (LpDone [1;2;3] []) [].
 Proof. vm_compute. reflexivity. Qed.
